@@ -15,27 +15,34 @@
 (***************************************************************************)
 EXTENDS Integers, Sequences, VB
 
+\* TLC keeps [k \in S |-> e] as an unevaluated closure; chains of such closures re-evaluate exponentially.
+\* Concatenation with the empty sequence turns a function over 1..n into an evaluated tuple.
+Force(f) == <<>> \o f
+
 IsDigit(c) == c >= 48 /\ c <= 57
 AllDigits(s) == Len(s) > 0 /\ \A k \in 1..Len(s) : IsDigit(s[k])
 
-\* ---- byte vector -> digits: long division by 10, most significant byte first
-\* Rem[i] = remainder after processing bytes Len..i
-DivMod10(b) ==
-  LET n == Len(b)
-      Rem[i \in 1..(n + 1)] == IF i = n + 1 THEN 0 ELSE (Rem[i + 1] * 256 + b[i]) % 10
-  IN [q |-> [i \in 1..n |-> (Rem[i + 1] * 256 + b[i]) \div 10], r |-> Rem[1]]
+\* ---- byte vector -> digits: long division by 10^4, most significant byte first (linear, carries passed down)
+RECURSIVE DivFrom(_, _, _, _)
+DivFrom(b, i, rem, q) ==          \* bytes i..1 still to do; q = quotient bytes i+1..Len(b) (little endian)
+  IF i = 0 THEN [q |-> q, r |-> rem]
+  ELSE LET cur == rem * 256 + b[i] IN DivFrom(b, i - 1, cur % 10000, <<cur \div 10000>> \o q)
+DivMod10000(b) == DivFrom(b, Len(b), 0, <<>>)
+Four(x) == <<48 + (x \div 1000), 48 + ((x \div 100) % 10), 48 + ((x \div 10) % 10), 48 + (x % 10)>>
 
-RECURSIVE DecOfUFrom(_, _)
+RECURSIVE DecOfUFrom(_, _), StripZeros(_)
 DecOfUFrom(b, acc) ==
   IF IsZeros(b) THEN acc
-  ELSE LET d == DivMod10(b) IN DecOfUFrom(d.q, <<48 + d.r>> \o acc)
-DecOfU(b) == IF IsZeros(b) THEN <<48>> ELSE DecOfUFrom(b, <<>>)
+  ELSE LET d == DivMod10000(b) IN DecOfUFrom(d.q, Four(d.r) \o acc)
+StripZeros(ds) == IF Len(ds) > 1 /\ ds[1] = 48 THEN StripZeros(Tail(ds)) ELSE ds
+DecOfU(b) == IF IsZeros(b) THEN <<48>> ELSE StripZeros(DecOfUFrom(b, <<>>))
 
 \* ---- digits -> byte vector: acc * 10 + d with a carry chain; ovf when the value needs more than n bytes
-MulAdd10(b, d) ==
-  LET n == Len(b)
-      Carry[i \in 0..n] == IF i = 0 THEN d ELSE (b[i] * 10 + Carry[i - 1]) \div 256
-  IN [v |-> [i \in 1..n |-> (b[i] * 10 + Carry[i - 1]) % 256], ovf |-> Carry[n] > 0]
+RECURSIVE MulAddFrom(_, _, _, _)
+MulAddFrom(b, i, carry, out) ==
+  IF i > Len(b) THEN [v |-> out, ovf |-> carry > 0]
+  ELSE LET t == b[i] * 10 + carry IN MulAddFrom(b, i + 1, t \div 256, Append(out, t % 256))
+MulAdd10(b, d) == MulAddFrom(b, 1, d, <<>>)
 
 RECURSIVE UOfDecFrom(_, _, _)
 UOfDecFrom(ds, i, acc) ==
